@@ -14,6 +14,7 @@ import (
 	"fmt"
 	"math/bits"
 	"os"
+	"regexp"
 	"runtime/debug"
 	"strings"
 	"sync"
@@ -112,6 +113,31 @@ func safeVerify(n *niInst, c compiler.Name, ctx *session.Context, sel stmtSel, p
 	return err, ""
 }
 
+// family is the protocol family of an instance name ("range/1024" -> "range").
+func family(name string) string {
+	if i := strings.IndexByte(name, '/'); i > 0 {
+		return name[:i]
+	}
+	return name
+}
+
+var (
+	reIdx    = regexp.MustCompile(`\[\d+\]`)
+	reNumKey = regexp.MustCompile(`>\d+`)
+)
+
+// genericPath turns an edit description into its position-independent tree path ("$>Z>W1>7>p ..." -> "$>Z>W1>#>p").
+func genericPath(desc string) string {
+	p := desc
+	if i := strings.IndexByte(p, ' '); i > 0 {
+		p = p[:i]
+	}
+	if !strings.HasPrefix(p, "$") {
+		return "-"
+	}
+	return reNumKey.ReplaceAllString(reIdx.ReplaceAllString(p, "[]"), ">#")
+}
+
 func hexShort(b []byte) string {
 	if len(b) <= 1500 {
 		return hex.EncodeToString(b)
@@ -135,10 +161,10 @@ func admissionBody(insts []*niInst) func(*engine.X) {
 				wantRefuse = fischlinRefuses(n)
 			}
 			if wantRefuse && err == nil {
-				x.Failf("admission/"+compShort(c)+"/admitted", "%s: %s compiler admitted a protocol with soundness error 2^-%d", n.name, c, n.soundnessError)
+				failf(x, "admission/"+compShort(c)+"/admitted", "%s: %s compiler admitted a protocol with soundness error 2^-%d", n.name, c, n.soundnessError)
 			}
 			if !wantRefuse && err != nil {
-				x.Failf("admission/"+compShort(c)+"/refused", "%s: %s compiler refused a protocol with soundness error 2^-%d: %v", n.name, c, n.soundnessError, err)
+				failf(x, "admission/"+compShort(c)+"/refused", "%s: %s compiler refused a protocol with soundness error 2^-%d: %v", n.name, c, n.soundnessError, err)
 			}
 			x.Observe(n.name, " ", c, " admitted=", err == nil)
 		}
@@ -223,7 +249,7 @@ func refusalBody() func(*engine.X) {
 		x.Case(r.name)
 		err := r.try()
 		if err == nil {
-			x.Failf("refusal/"+r.name, "constructor accepted: %s", r.name)
+			failf(x, "refusal/"+r.name, "constructor accepted: %s", r.name)
 		}
 		x.Observe(r.name, " refused=", err != nil)
 	}
@@ -274,6 +300,7 @@ type cfg struct {
 	mode     bitMode
 	restrict idxAlphabet
 	chunk    int  // edits per execution of the proof-edit section
+	lite     bool // only value bits, component drops, array extensions and whole-value re-wraps (multi-second verifications)
 	light    bool // quick tier, Fischlin-type compilers: only the context pairs that need at most one extra proof
 }
 
@@ -296,11 +323,11 @@ func contextBody(cfgs []cfg) func(*engine.X) {
 			x.Case(cf.String() + "/" + what)
 			switch {
 			case site != "":
-				x.Failf("panic@"+site, "%s: Verify panicked in %s (%s): %v", cf, site, what, err)
+				failf(x, "panic@"+site, "%s: Verify panicked in %s (%s): %v", cf, site, what, err)
 			case wantAccept && err != nil:
-				x.Failf("complete/"+compShort(c)+"/"+key, "%s: honest proof rejected (%s): %v", cf, what, err)
+				failf(x, "complete/"+compShort(c)+"/"+key, "%s: honest proof rejected (%s): %v", cf, what, err)
 			case !wantAccept && err == nil:
-				x.Failf("accepted/"+compShort(c)+"/"+key, "%s: proof ACCEPTED although %s", cf, what)
+				failf(x, "accepted/"+compShort(c)+"/"+key, "%s: proof ACCEPTED although %s", cf, what)
 			case err == nil:
 				acc++
 			default:
@@ -317,7 +344,7 @@ func contextBody(cfgs []cfg) func(*engine.X) {
 			}
 			proof, err := n.honest(c, e.prover, 0)
 			if err != nil {
-				x.Failf("prove/"+compShort(c), "%s: Prove failed in context %q: %v", cf, e.name, err)
+				failf(x, "prove/"+compShort(c), "%s: Prove failed in context %q: %v", cf, e.name, err)
 				return
 			}
 			verr, pan := safeVerify(n, c, e.verifier.build(), stmtSel{}, proof)
@@ -360,7 +387,7 @@ func contextBody(cfgs []cfg) func(*engine.X) {
 		expect("statement/other-instance", "proof of instance 0 presented for instance 1", verr, pan, false)
 		proof1, err := n.honest(c, proverCtx(), 1)
 		if err != nil {
-			x.Failf("prove/"+compShort(c), "%s: Prove failed for instance 1: %v", cf, err)
+			failf(x, "prove/"+compShort(c), "%s: Prove failed for instance 1: %v", cf, err)
 			return
 		}
 		verr, pan = safeVerify(n, c, verifierCtx().build(), stmtSel{kind: 1}, proof1)
@@ -385,8 +412,17 @@ func (c cfg) edits() (orig []byte, eds []edit, err error) {
 	if len(orig) > 4096 {
 		mode = bitsLeaf // every bit only for proofs <= 4 KiB
 	}
-	eds = editCache.get(fmt.Sprintf("%s|%d|%v", c, mode, c.restrict), func() []edit {
+	eds = editCache.get(fmt.Sprintf("%s|%d|%v|%v", c, mode, c.restrict, c.lite), func() []edit {
 		out := enumerateEdits(orig, mode, c.restrict)
+		if c.lite {
+			var keep []edit
+			for _, e := range out {
+				if e.class == "bit" || e.class == "drop" || e.class == "extend" || !strings.HasPrefix(e.desc, "$") {
+					keep = append(keep, e)
+				}
+			}
+			return keep
+		}
 		if donor, err := c.n.honest(c.c, proverCtx(), 1); err == nil {
 			out = append(out, spliceEdits(orig, donor, c.restrict)...)
 		}
@@ -406,7 +442,7 @@ func proofEditBody(cfgs []cfg) func(*engine.X) {
 		}
 		orig, eds, err := cf.edits()
 		if err != nil {
-			x.Failf("prove/"+compShort(c), "%s: Prove failed: %v", cf, err)
+			failf(x, "prove/"+compShort(c), "%s: Prove failed: %v", cf, err)
 			return
 		}
 		chunkSize := max(cf.chunk, 1)
@@ -416,7 +452,7 @@ func proofEditBody(cfgs []cfg) func(*engine.X) {
 		w := newWalker(orig)
 		baseNils, err := n.nils(c, orig)
 		if err != nil {
-			x.Failf("complete/"+compShort(c)+"/decode", "%s: the honest proof does not decode: %v", cf, err)
+			failf(x, "complete/"+compShort(c)+"/decode", "%s: the honest proof does not decode: %v", cf, err)
 			return
 		}
 		rejected, exempt, noop, isolated := 0, 0, 0, 0
@@ -438,7 +474,7 @@ func proofEditBody(cfgs []cfg) func(*engine.X) {
 				var site string
 				verr, site = safeVerify(n, c, verifierCtx().build(), stmtSel{}, edited)
 				if site != "" {
-					x.Failf("panic@"+site, "%s: Verify panicked while decoding the edited proof, in %s (%s): %v\n edited proof: %s", cf, site, ed.desc, verr, hexShort(edited))
+					failf(x, "panic@"+site, "%s: Verify panicked while decoding the edited proof, in %s (%s): %v\n edited proof: %s", cf, site, ed.desc, verr, hexShort(edited))
 					continue
 				}
 			case derr == nil && !sameStrings(np, baseNils):
@@ -448,10 +484,10 @@ func proofEditBody(cfgs []cfg) func(*engine.X) {
 				res := runChild("ni|"+n.name+"|"+string(c), []byte(hex.EncodeToString(edited)))
 				switch res.outcome {
 				case "CRASH":
-					x.Failf("crash@"+res.site, "%s: Verify TERMINATED THE PROCESS (unrecoverable panic in a library goroutine, in %s) on edited proof (%s): %s\n edited proof: %s", cf, res.site, ed.desc, res.detail, hexShort(edited))
+					failf(x, "crash@"+res.site, "%s: Verify TERMINATED THE PROCESS (unrecoverable panic in a library goroutine, in %s) on edited proof (%s): %s\n edited proof: %s", cf, res.site, ed.desc, res.detail, hexShort(edited))
 					continue
 				case "PANIC":
-					x.Failf("panic@"+res.site, "%s: Verify panicked in %s on edited proof (%s): %s\n edited proof: %s", cf, res.site, ed.desc, res.detail, hexShort(edited))
+					failf(x, "panic@"+res.site, "%s: Verify panicked in %s on edited proof (%s): %s\n edited proof: %s", cf, res.site, ed.desc, res.detail, hexShort(edited))
 					continue
 				case "REJECT":
 					verr = fmt.Errorf("%s", res.detail)
@@ -460,7 +496,7 @@ func proofEditBody(cfgs []cfg) func(*engine.X) {
 				var site string
 				verr, site = safeVerify(n, c, verifierCtx().build(), stmtSel{}, edited)
 				if site != "" {
-					x.Failf("panic@"+site, "%s: Verify panicked in %s on edited proof (%s): %v\n edited proof: %s", cf, site, ed.desc, verr, hexShort(edited))
+					failf(x, "panic@"+site, "%s: Verify panicked in %s on edited proof (%s): %v\n edited proof: %s", cf, site, ed.desc, verr, hexShort(edited))
 					continue
 				}
 			}
@@ -480,7 +516,7 @@ func proofEditBody(cfgs []cfg) func(*engine.X) {
 				classes["exempt:"+ed.class]++
 				continue
 			}
-			x.Failf("accepted/"+compShort(c)+"/edit-"+ed.class, "%s: edited proof ACCEPTED: %s\n original: %s\n edited:   %s", cf, ed.desc, hexShort(orig), hexShort(edited))
+			failf(x, "accepted/"+family(n.name)+"/"+compShort(c)+"/"+ed.class+"@"+genericPath(ed.desc), "%s: edited proof ACCEPTED (and it does not re-encode to the original bytes): %s\n original: %s\n edited:   %s", cf, ed.desc, hexShort(orig), hexShort(edited))
 		}
 		x.Observe(cf, " chunk ", ch, " rejected ", rejected, " exempt ", exempt, " noop ", noop, " isolated ", isolated, " ", fmt.Sprint(classes))
 	}
@@ -493,8 +529,14 @@ func sigmaBody(insts []*niInst) func(*engine.X) {
 	return func(x *engine.X) { engine.Pick(x, "protocol", insts).sigmaLevel(x) }
 }
 
-func zkBody(insts []*niInst) func(*engine.X) {
-	return func(x *engine.X) { engine.Pick(x, "protocol", insts).zkRun(x) }
+func zkList(insts []*niInst) []*interactive {
+	var out []*interactive
+	for _, n := range insts {
+		if n.zk != nil {
+			out = append(out, n.zk)
+		}
+	}
+	return out
 }
 
 // ---------------------------------------------------------------------------------------------
@@ -530,17 +572,44 @@ var planOnce = sync.OnceValue(func() *plan {
 
 func buildPlan() *plan { return planOnce() }
 
-// heavyInsts: the Paillier-based protocols with fixed test keys (plain composition).
-var heavyOnce = sync.OnceValue(func() []*niInst {
-	return []*niInst{
-		nthrootCase(1024).ni(), rangeCase(1024).ni(), prmCase(512).ni(),
-		encCase(1024).ni(), encelgCase(1024).ni(), facCase(1024).ni(), blummodCase(1024).ni(),
-		affgCase(2048).ni(), affgstarCase(2048).ni(), decCase(2048).ni(),
-		paillierNInst(1024),
-	}
-})
+// heavyInsts: the Paillier-based protocols with fixed test keys (plain composition). Each is built lazily (a child
+// process builds only the one it needs).
+type lazyInst struct {
+	name string
+	get  func() *niInst
+}
 
-func heavyInsts() []*niInst { return heavyOnce() }
+var heavyTable = []lazyInst{
+	{"nthroot/1024", sync.OnceValue(func() *niInst { return nthrootCase(1024).ni() })},
+	{"range/1024", sync.OnceValue(func() *niInst { return rangeCase(1024).ni() })},
+	{"prm/512", sync.OnceValue(func() *niInst { return prmCase(512).ni() })},
+	{"cggmp21-enc/1024", sync.OnceValue(func() *niInst { return encCase(1024).ni() })},
+	{"cggmp21-encelg/1024", sync.OnceValue(func() *niInst { return encelgCase(1024).ni() })},
+	{"cggmp21-fac/1024", sync.OnceValue(func() *niInst { return facCase(1024).ni() })},
+	{"cggmp21-blummod/1024", sync.OnceValue(func() *niInst { return blummodCase(1024).ni() })},
+	{"cggmp21-affg/2048", sync.OnceValue(func() *niInst { return affgCase(2048).ni() })},
+	{"cggmp21-affgstar/2048", sync.OnceValue(func() *niInst { return affgstarCase(2048).ni() })},
+	{"cggmp21-dec/2048", sync.OnceValue(func() *niInst { return decCase(2048).ni() })},
+	{"pailliern/1024", sync.OnceValue(func() *niInst { return paillierNInst(1024) })},
+}
+
+func heavyInsts() []*niInst {
+	var out []*niInst
+	for _, l := range heavyTable {
+		out = append(out, l.get())
+	}
+	return out
+}
+
+// heavyByName builds only the named Paillier-based instance (nil if it is not one).
+func heavyByName(name string) *niInst {
+	for _, l := range heavyTable {
+		if l.name == name || l.name+"/zk" == name {
+			return l.get()
+		}
+	}
+	return nil
+}
 
 // interactiveInsts: the interactive Paillier protocols (LP with k = 3 repetitions, LPDL), 1024-bit key.
 var interactiveOnce = sync.OnceValue(func() []*interactive {
@@ -550,11 +619,14 @@ var interactiveOnce = sync.OnceValue(func() []*interactive {
 func interactiveInsts() []*interactive { return interactiveOnce() }
 
 func TestCheck(t *testing.T) {
-	engine.Rule("protocol x composition {plain, AND2, AND3, OR-left, OR-right} x compiler {Fiat-Shamir, Fischlin, randomised Fischlin} x group; per configuration one honest proof (fixed deterministic randomness) and then EVERY listed single edit: 19 prover/verifier context pairs, replay, other protocol name, other compiler, each statement component replaced, other instance; every CBOR-tree edit of the proof bytes (every bit of every leaf <= 64 B, else LSB/middle/MSB; key/tag edits; leaf swaps; drop/duplicate/blank of every component; array truncate/extend; re-wraps; splice of the same leaf from another valid proof). A case is distinct by (configuration, edit description); non-trivial = Verify was called on bytes different from the original. Sigma level: 4 challenges {0,1,ff..ff,pattern} on one commitment, all 12 ordered pairs through the extractor, 4 simulator runs. Interactive compiler: honest run + every bit of the raw messages + every CBOR edit of the structured messages.")
-	engine.Assume("the proof randomness is one fixed deterministic stream per configuration (errgroup workers may interleave reads, so proof bytes can differ between processes; oracles never compare proof bytes across runs)",
-		"/verif/mc/ref/cbor parses and re-encodes canonical CBOR losslessly (asserted on every proof before mutation)",
-		"the sid-field-only edit overwrites the private sid of a session.Context by reflection; it isolates the explicit session-id binding from the transcript binding",
-		"two simultaneous edits and adversarially computed proofs are outside the space", "purego build of the library")
+	engine.Rule("One honest proof per configuration (protocol x composition {plain, AND2, AND3, OR-left, OR-right} x compiler {Fiat-Shamir, Fischlin, randomised Fischlin} x group; Paillier-based protocols: plain, fixed 512/1024/2048-bit test keys), produced with fixed deterministic randomness, then EVERY listed single edit, each alone: (context) 19 prover/verifier context pairs [same context in 7 histories = must verify; other session, sid field only, extra AppendBytes, other prover-id label, cloned after an earlier ExtractBytes, sub-context: on the verifier's side and on the prover's side = must be rejected], replay on the advanced verifier context, other protocol name, other compiler, each statement component replaced by another valid one, proof of instance j for instance k; (proof) every CBOR-tree edit of the proof bytes: value bits of every leaf (quick EC/Fiat-Shamir: every bit; repeated Fischlin proofs and Paillier-sized proofs: LSB/middle/MSB or LSB with the index alphabet {0,1,mid,last-1,last} / {0,last} / {0} on arrays and maps longer than 8 - see the per-section notes), map-key and tag edits, swaps of same-kind leaves and of neighbouring array elements, drop / duplicate / blank (empty, null) of every component, array truncate / extend (null, empty string), re-wraps (array, tag 55799, byte string, non-minimal head, trailing byte, truncation), splice of the same leaf of another valid proof. A case is distinct by (configuration, edit description) and non-trivial when Verify ran on bytes different from the original. Sigma level: 4 challenges {0, 1, ff..ff, pattern} on ONE commitment: each response verifies, all 12 ordered challenge pairs go through the extractor (where exposed; per branch for compositions) and the result must satisfy ValidateStatement, cross-accepted responses must extract too, 4 simulator runs must verify. Interactive protocols (zk compiler over every selected sigma protocol; Paillier LP, LPDL): honest run accepted, then every edit of every message of the run (same edit alphabet) must end without the verifier accepting.")
+	engine.Assume("the proof randomness is one fixed deterministic stream per configuration (errgroup workers of sigand/sigor may interleave reads, so proof bytes can differ between processes; oracles never compare proof bytes across runs and edits are addressed by tree position)",
+		"/verif/mc/ref/cbor parses and re-encodes canonical CBOR losslessly (asserted on every proof/message before mutation)",
+		"exemption rule, decided mechanically: an accepted edit is the same proof iff Marshal(Unmarshal(edited)) == original bytes",
+		"the sid-field-only context edit overwrites the private sid of a session.Context by reflection; it isolates the explicit session-id binding from the transcript binding (sid and initial transcript both derive from the common seed)",
+		"verifications whose DECODED input carries a nil component run in a child process (re-exec of this binary) because a nil dereference inside a library errgroup goroutine is unrecoverable; 'crash@site' = the child was killed, 'panic@site' = recoverable panic, site = first library frame under the panic",
+		"Paillier / ring-Pedersen test keys are built from fixed primes (table shared with C16); key-size floors are relaxed because the check is a test binary",
+		"two simultaneous edits, adversarially computed proofs and timing are outside the space", "purego build of the library")
 
 	pl := buildPlan()
 	all, fischlinSet := pl.all, pl.fischlinSet
@@ -572,6 +644,10 @@ func TestCheck(t *testing.T) {
 		}
 		for _, c := range compilers {
 			cf := cfg{n: n, c: c, mode: bitsAll, chunk: 96}
+			if c == fiatshamir.Name && !engine.Thorough() && (strings.HasSuffix(n.name, "/and3") || strings.HasSuffix(n.name, "/orR")) {
+				// quick: every bit for plain, AND2 and OR-left; AND3 / OR-right (same code paths) use LSB/middle/MSB per leaf
+				cf.mode = bitsLeaf
+			}
 			if c != fiatshamir.Name {
 				cf.chunk = 24
 				if !engine.Thorough() {
@@ -590,12 +666,17 @@ func TestCheck(t *testing.T) {
 		}
 	}
 	// Paillier-based protocols (fixed test keys; plain composition)
-	heavy := only(heavyInsts())
+	var heavy []*niInst
+	for _, l := range heavyTable {
+		if f := os.Getenv("VERIF_C08_ONLY"); f == "" || strings.Contains(l.name, f) {
+			heavy = append(heavy, l.get())
+		}
+	}
 	var heavyCfgs []cfg
 	var heavyZk []*niInst
 	for _, n := range heavy {
 		u := n.unitMS
-		if n.zkRun != nil && (u <= 50 || (engine.Thorough() && u <= 500)) {
+		if n.zk != nil && (u <= 50 || (engine.Thorough() && u <= 500)) {
 			heavyZk = append(heavyZk, n)
 		}
 		for _, c := range compilers {
@@ -619,14 +700,14 @@ func TestCheck(t *testing.T) {
 				case u <= 500:
 					cf.mode, cf.restrict = bitsLeaf, idx5
 				default:
-					cf.mode, cf.restrict = bitsLSB, idx2
+					cf.mode, cf.restrict = bitsLSB, idx1
 				}
 			case u <= 50:
 				cf.mode, cf.restrict = bitsLeaf, idx5
 			case u <= 200:
 				cf.mode, cf.restrict = bitsLSB, idx2
 			default:
-				cf.mode, cf.restrict = bitsLSB, idx1
+				cf.mode, cf.restrict, cf.lite = bitsLSB, idx1, u > 1000
 			}
 			heavyCfgs = append(heavyCfgs, cf)
 		}
@@ -635,7 +716,7 @@ func TestCheck(t *testing.T) {
 		engine.Explore(contextBody(cfgs), engine.Opts{Name: "context+statement/ec", MaxFails: 1 << 20, Budget: engine.Budget(4*time.Minute, 30*time.Minute)})
 		engine.Explore(proofEditBody(cfgs), engine.Opts{Name: "proof-edits/ec", MaxFails: 1 << 20, Budget: engine.Budget(6*time.Minute, 90*time.Minute)})
 		engine.Explore(sigmaBody(all), engine.Opts{Name: "sigma-level/ec", Budget: engine.Budget(2*time.Minute, 10*time.Minute)})
-		engine.Explore(zkBody(zkSet), engine.Opts{Name: "zk-compiler/ec", MaxFails: 1 << 20, Budget: engine.Budget(3*time.Minute, 30*time.Minute)})
+		engine.Explore(iaBody(zkList(zkSet)), engine.Opts{Name: "zk-compiler/ec", MaxFails: 1 << 20, Budget: engine.Budget(3*time.Minute, 30*time.Minute)})
 	}
 	var sec *engine.Section
 	if len(heavy) > 0 {
@@ -654,7 +735,7 @@ func TestCheck(t *testing.T) {
 			engine.Explore(sigmaBody(heavySigma), engine.Opts{Name: "sigma-level/paillier", Budget: engine.Budget(3*time.Minute, 15*time.Minute)})
 		}
 		if len(heavyZk) > 0 {
-			engine.Explore(zkBody(heavyZk), engine.Opts{Name: "zk-compiler/paillier", MaxFails: 1 << 20, Budget: engine.Budget(3*time.Minute, 30*time.Minute)})
+			engine.Explore(iaBody(zkList(heavyZk)), engine.Opts{Name: "zk-compiler/paillier", MaxFails: 1 << 20, Budget: engine.Budget(3*time.Minute, 30*time.Minute)})
 		}
 	}
 	ias := interactiveInsts()
@@ -676,6 +757,7 @@ func TestCheck(t *testing.T) {
 			sec = s2
 		}
 	}
+	printTally(sec)
 	if sec != nil {
 		sec.Note("verifications isolated in child processes (decoded value carried a nil component): %d, of which the child was killed by an unrecoverable panic: %d; total child wall time %.1fs", childCount.Load(), childCrashes.Load(), float64(childNanos.Load())/1e9)
 	}
